@@ -198,6 +198,9 @@ func (e *Exec) now() TimeV {
 		e.clockLast = &x
 		return TimeV{NS: &x}
 	}
+	if e.clockFrozen && e.clockLast != nil {
+		return TimeV{NS: e.clockLast}
+	}
 	tag := "clock.now"
 	var x Int
 	if s, ok := e.nextConcrete("int64"); ok {
@@ -213,6 +216,12 @@ func (e *Exec) now() TimeV {
 		e.assert(&Term{S: fmt.Sprintf("(and (bvsge %s %s) (bvslt %s %s))", t.S, lo, t.S, hi)})
 		if e.clockLast != nil {
 			e.assert(&Term{S: fmt.Sprintf("(bvsge %s %s)", t.S, e.clockLast.term().S)})
+		}
+		// one harness run takes less than half an hour of wall-clock time
+		if e.clockFirst == nil {
+			e.clockFirst = &x
+		} else {
+			e.assert(&Term{S: fmt.Sprintf("(bvslt %s (bvadd %s %s))", t.S, e.clockFirst.term().S, bvLit(1800*nsPerSec, 64))})
 		}
 	}
 	e.clockLast = &x
